@@ -11,7 +11,17 @@ structure OKey where
   addr : List Nat
   mac : List Nat
   at_ : Nat
+  /-- how many cache insertions had happened when this one was made (ring overflow evicts after 512 more) -/
+  seq : Nat := 0
 deriving Inhabited
+
+/-- learning a mapping: the same link address while the entry is still valid keeps the old expiry -/
+def learnKey (known : List OKey) (nic : Nat) (a mac : List Nat) (now age seq : Nat) : List OKey :=
+  match known.find? (fun k => k.nic == nic && k.addr == a) with
+  | some k =>
+    if k.mac == mac && now ≤ k.at_ + age then known
+    else ⟨nic, a, mac, now, seq⟩ :: known.filter (fun k => !(k.nic == nic && k.addr == a))
+  | none => ⟨nic, a, mac, now, seq⟩ :: known
 
 structure OSt where
   now : Nat := 0
@@ -24,6 +34,7 @@ structure OSt where
   pending : List (Nat × List Nat × Nat × Nat) := []
   ours : List (List Nat) := []
   mac : List (Nat × List Nat) := []
+  inserts : Nat := 0
 deriving Inhabited
 
 structure St where
@@ -35,6 +46,7 @@ deriving Inhabited
 
 def showOuts (os : List Out) : String :=
   let reqs := os.filterMap fun o => match o with | .request k _ _ => some s!"req:{k.nic}:{toHexN k.addr}" | _ => none
+  let reqs := (reqs.toArray.qsort (· < ·)).toList
   let wakes := (os.filterMap fun o => match o with | .wake _ n => some n | _ => none).foldl (· + ·) 0
   " ".intercalate (reqs ++ [s!"wake:{wakes}"])
 
@@ -63,6 +75,15 @@ def modelStep (st : St) (toks : List String) : St × String :=
       match st.c.get ⟨nic, a⟩ static true la (if pr == "6" then 34525 else 2048) with
       | some (c, r, o) =>
         let rs := match r with | .addr m => "addr:" ++ toHexN m | .wouldBlock => "wouldblock" | .noLinkAddr => "nolink"
+        ({ st with c := c }, rs ++ " " ++ showOuts o)
+      | none => fail
+    | _, _, _ => (st, "bad-op")
+  | ["udpw", nic, a, la] =>
+    match nic.toNat?, hexN a, hexN la with
+    | some nic, some a, some la =>
+      match st.c.get ⟨nic, a⟩ none true la 2048 false with
+      | some (c, r, o) =>
+        let rs := match r with | .addr m => "sent:" ++ toHexN m ++ " ip=1" | .wouldBlock => "wouldblock ip=0" | .noLinkAddr => "nolink ip=0"
         ({ st with c := c }, rs ++ " " ++ showOuts o)
       | none => fail
     | _, _, _ => (st, "bad-op")
@@ -103,10 +124,21 @@ def oracleStep (st : St) (toks : List String) (res : String) : St × String :=
     | ["req", n, a] => do let n ← n.toNat?; let a ← hexN a; pure (n, a)
     | _ => none
   let bump (p : List (Nat × List Nat × Nat × Nat)) : List (Nat × List Nat × Nat × Nat) :=
-    p.map fun (n, a, t0, cnt) => (n, a, t0, cnt + (reqs.filter fun r => r.1 == n && r.2 == a).length)
+    p.map fun (n, a, t0, cnt) =>
+      -- a lookup whose budget window is over has ended; later requests belong to a new resolution
+      if o.now > t0 + o.attempts * o.timeout + 40 then (n, a, t0, cnt)
+      else (n, a, t0, cnt + (reqs.filter fun r => r.1 == n && r.2 == a).length)
   let pend := bump o.pending
   let over := pend.any fun (_, _, _, cnt) => cnt > o.attempts
   let o := { o with pending := pend }
+  if toks.head? == some "reset" then
+    match toks with
+    | ["reset", _, age, timeout, attempts] =>
+      match age.toNat?, timeout.toNat?, attempts.toNat? with
+      | some a, some t, some n => ({ st with o := { age := a, timeout := t, attempts := n } }, "ok")
+      | _, _, _ => (st, "bad-op")
+    | _ => (st, "bad-op")
+  else
   if over then ret o "bad c12.more-requests-than-the-retry-budget" else
   match toks with
   | ["reset", _, age, timeout, attempts] =>
@@ -124,9 +156,34 @@ def oracleStep (st : St) (toks : List String) (res : String) : St × String :=
   | ["add", nic, a, mac] =>
     match nic.toNat?, hexN a, hexN mac with
     | some nic, some a, some mac =>
-      ret { o with known := ⟨nic, a, mac, o.now⟩ :: o.known.filter (fun k => !(k.nic == nic && k.addr == a)),
+      ret { o with known := learnKey o.known nic a mac o.now o.age (o.inserts + 1), inserts := o.inserts + 1,
                    pending := o.pending.filter fun (n, x, _, _) => !(n == nic && x == a) } "ok"
     | _, _, _ => (st, "bad-op")
+  | ["udpw", nic, a, _] =>
+    match nic.toNat?, hexN a with
+    | some nic, some a =>
+      let k := o.known.find? fun k => k.nic == nic && k.addr == a
+      let ip := (getField "ip=" rtoks).getD "?"
+      match rtoks.head? with
+      | some r =>
+        if r.startsWith "sent:" then
+          let m := hexN (r.drop 5).toString
+          match k with
+          | none => ret o "bad c12.traffic-sent-to-an-unresolved-next-hop"
+          | some k =>
+            if some k.mac != m then ret o "bad c12.traffic-sent-to-a-link-address-other-than-the-one-resolved"
+            else if o.now > k.at_ + o.age + 40 then ret o "bad c12.entry-reported-after-expiry"
+            else ret o (if ip == "1" then "ok" else "bad c12.write-succeeded-without-a-packet")
+        else
+          -- not resolved yet: nothing but resolution requests may be on the wire
+          let started := o.pending.any fun (n, x, t0, _) => n == nic && x == a && o.now ≤ t0 + o.attempts * o.timeout + 40
+          let o' := if r == "wouldblock" && !started then
+              { o with pending := (nic, a, o.now, (reqs.filter fun q => q.1 == nic && q.2 == a).length) ::
+                                    o.pending.filter fun (n, x, _, _) => !(n == nic && x == a) }
+            else o
+          ret o' (if ip == "0" then "ok" else "bad c12.traffic-on-the-wire-before-resolution-completed")
+      | none => (st, "bad-op")
+    | _, _ => (st, "bad-op")
   | ["get", nic, a, _, pr] =>
     match nic.toNat?, hexN a with
     | some nic, some a =>
@@ -142,16 +199,23 @@ def oracleStep (st : St) (toks : List String) (res : String) : St × String :=
             if some k.mac != m then ret o "bad c12.entry-reported-for-a-different-address-or-stale-link-address"
             else if o.now > k.at_ + o.age + 40 then ret o "bad c12.entry-reported-after-expiry"
             else ret o "ok"
+        else if (match k with | some k => o.now + 40 ≤ k.at_ + o.age && o.inserts < k.seq + 500 | none => false) then
+          -- a mapping learned and still valid must be used
+          ret o "bad c12.learned-mapping-not-used"
         else if r == "wouldblock" then
-          let started := o.pending.any fun (n, x, _, _) => n == nic && x == a
-          ret (if started then o else { o with pending := (nic, a, o.now, (reqs.filter fun q => q.1 == nic && q.2 == a).length) :: o.pending }) "ok"
+          -- the same resolution is still running only while its retry budget has not run out
+          let started := o.pending.any fun (n, x, t0, _) => n == nic && x == a && o.now ≤ t0 + o.attempts * o.timeout + 40
+          ret (if started then o else
+            { o with pending := (nic, a, o.now, (reqs.filter fun q => q.1 == nic && q.2 == a).length) ::
+                                  o.pending.filter fun (n, x, _, _) => !(n == nic && x == a) }) "ok"
         else if r == "nolink" then
           -- only after the whole retry budget was spent without an answer
           let p := o.pending.find? fun (n, x, _, _) => n == nic && x == a
           match p with
           | some (_, _, t0, cnt) =>
-            if cnt < o.attempts || o.now + 40 < t0 + o.attempts * o.timeout then ret o "bad c12.resolution-failed-before-the-retry-budget-was-spent"
-            else ret o "ok"
+            let o' := { o with pending := o.pending.filter fun (n, x, _, _) => !(n == nic && x == a) }
+            if cnt < o.attempts || o.now + 40 < t0 + o.attempts * o.timeout then ret o' "bad c12.resolution-failed-before-the-retry-budget-was-spent"
+            else ret o' "ok"
           | none => ret o "ok"
         else ret o "bad c12.lookup-result"
       | none => (st, "bad-op")
@@ -170,7 +234,7 @@ def oracleStep (st : St) (toks : List String) (res : String) : St × String :=
       let expectReply := valid && op == 1 && ours
       -- learning: replies, and requests addressed to us
       let learns := valid && (op == 2 || (op == 1 && ours))
-      let o' := if learns then { o with known := ⟨nic, spa, sha, o.now⟩ :: o.known.filter (fun k => !(k.nic == nic && k.addr == spa)),
+      let o' := if learns then { o with known := learnKey o.known nic spa sha o.now o.age (o.inserts + 1), inserts := o.inserts + 1,
                                         pending := o.pending.filter fun (n, x, _, _) => !(n == nic && x == spa) } else o
       if rep == "-" then ret o' (if expectReply then "bad c12.arp-request-for-own-address-not-answered" else "ok")
       else if !expectReply then ret o' "bad c12.arp-answered-for-foreign-target-or-malformed-request"
